@@ -153,6 +153,14 @@ def run(ctx, rep, tier):
     ok = len(fmts) == 1 and (re.fullmatch(r"\\\{:03o\}", fmts[0]) is not None or re.search(r'"\s*"', fmts[0]) is not None)
     rep.check(ok, "C15.c", "CodegenCtx._escape_string", "non-printable bytes use a self-delimiting escape",
               f"non-printable bytes are emitted as {fmts}: a C hex escape has no length limit, so \"\\x01ab\" is read as one character")
+    # every escape the function can emit has a fixed length: the one-character escapes of C, or exactly three octal digits. A numeric escape of
+    # variable length (`\0`, `\1`, `\x..`) takes the digits that follow it in the literal along (seed C06-14: "\0" + "12" is one character)
+    SIMPLE = {"\\" + ch for ch in "ntrabfv\\\"'?"} | {"\\"}
+    consts = [n.value for n in ast.walk(es) if isinstance(n, ast.Constant) and isinstance(n.value, str) and n.value.startswith("\\")]
+    odd = [c for c in consts if c not in SIMPLE and not re.fullmatch(r"\\\{:03o\}", c)]
+    rep.check(not odd, "C15.c", "CodegenCtx._escape_string", "every emitted escape has a fixed length (simple escape or three octal digits)",
+              f"_escape_string can emit {odd}: a numeric escape without a fixed length swallows the digits that follow it in the literal, while the copy length still counts the real bytes "
+              "(`\"00 31 32\"b` as a default stores 0a 00 ..)")
     rng = [n for n in walk_no_nested(es) if isinstance(n, ast.Compare) and len(n.ops) == 2]
     ok = any(ast.unparse(n) == "32 <= i < 127" for n in rng)
     rep.check(ok, "C15.c", "CodegenCtx._escape_string", "printable range 32..126 passes through", "printable range test changed")
@@ -345,7 +353,9 @@ def _token_conversion_discipline(ctx, rep, tier):
                                   f"`{ast.unparse(par)[:70]}` reads the text of a {sorted(kinds)[0][6:]} token directly: escapes are not interpreted on this path "
                                   "(`['\\n']` inside brackets would denote 110, the letter n)", line=node.lineno)
     if n < 6:
-        raise AnalysisError(f"C15.i: only {n} literal-token reads found (floor 6)")
+        # (not raised on the spot: a change that moves token reads elsewhere is usually what a later rule of this module reports)
+        rep.notes.append(f"C15.i: only {n} literal-token reads found (floor 6)")
+        ctx._c15_deferred = f"C15.i: only {n} literal-token reads found (floor 6)"
 
 
 _run_i15 = run
@@ -506,3 +516,14 @@ _run_p15 = run
 def run(ctx, rep, tier):
     _run_p15(ctx, rep, tier)
     _parse_tree_is_read_only(ctx, rep, tier)
+
+
+
+_run_r6 = run
+
+
+def run(ctx, rep, tier):
+    _run_r6(ctx, rep, tier)
+    msg = getattr(ctx, "_c15_deferred", None)
+    if msg and not rep.violations:
+        raise AnalysisError(msg)
